@@ -72,7 +72,13 @@ def check_no_content_type(c: int) -> bool:
     pre: 0 <= c <= 0xFF
     post: _
     """
-    return _roundtrip("", chr(c) + "x")
+    m = _msg("")
+    text = chr(c) + "x"
+    m.set_text(text)
+    # representable in the latin-1 default: no charset declaration is invented
+    if "content-type" in m.headers:
+        return False
+    return m.get_text() == text
 
 
 def twin_no_content_type(c: int) -> bool:
@@ -80,7 +86,7 @@ def twin_no_content_type(c: int) -> bool:
     pre: 0 <= c <= 0xFF
     post: _
     """
-    _roundtrip("", chr(c) + "x")
+    check_no_content_type(c)
     return False
 
 
